@@ -42,4 +42,40 @@ def view (c : Cfg) (f : CfgField) : Bytes := if f.isText then cstr (c f) else c 
 def renderPage (fmt : List Bytes → Bytes) (args : List CfgField) (c : Cfg) : Bytes :=
   fmt (args.map (view c))
 
+/-- the arithmetic of one `ets_snprintf(buffer, bufflen, html_template, ...)` page (regenerated per variant) -/
+structure PageFit where
+  name : String
+  fmtLen : Nat          -- strlen(html_template), directives included
+  hdrLen : Nat          -- strlen(html_template_header)
+  litOut : Nat          -- characters of the template that are copied as they are
+  nHex : Nat            -- %02X directives, each printing an unsigned char
+  constMax : Nat        -- the constant string arguments ("selected" / "" ...), longest alternatives added up
+  slack : Nat           -- the constant in bufflen
+  vars : List String    -- the string variables involved (the header, device name, state text, version, config fields)
+  printed : List Nat    -- how often each is printed with %s
+  summed : List Nat     -- how often strlen of each is a term of bufflen
+  deriving Repr, DecidableEq
+
+/-- Σ count_i * len_i -/
+def weighted : List Nat → List Nat → Nat
+  | c :: cs, l :: ls => c * l + weighted cs ls
+  | _, _ => 0
+
+/-- pointwise ≤ on lists of equal length -/
+def leAll : List Nat → List Nat → Bool
+  | [], [] => true
+  | a :: as, b :: bs => a ≤ b && leAll as bs
+  | _, _ => false
+
+/-- the decidable condition checked on the regenerated numbers -/
+def PageFit.ok (p : PageFit) : Bool :=
+  leAll p.printed p.summed && p.litOut + 2 * p.nHex + p.constMax + 1 ≤ p.fmtLen + p.slack
+
+/-- length of the rendered page for string lengths `ls` (in the order of `vars`) and constant arguments of total
+    length `k` -/
+def PageFit.pageLen (p : PageFit) (ls : List Nat) (k : Nat) : Nat := p.litOut + 2 * p.nHex + k + weighted p.printed ls
+
+/-- bufflen as the page builder computes it -/
+def PageFit.buffLen (p : PageFit) (ls : List Nat) : Nat := p.fmtLen + p.slack + weighted p.summed ls
+
 end SuplaVerif
